@@ -64,6 +64,9 @@ func c01Cases(c *Ctx) []c01Case {
 		cs = append(cs, c01Case{Nest(GenLeaf(r, kinds[1+d%(len(kinds)-1)], 1+d%3), d), d % 6, "nesting"})
 	}
 	cs = append(cs, c01Case{Nest(&LItem{Kind: "L"}, 63), 0, "nesting"})
+	for _, it := range SiblingDepthCases() {
+		cs = append(cs, c01Case{it, 0, "sibling-depth"})
+	}
 	// D: slab chunk boundaries: N same-type single-element leaves
 	for _, n := range []int{1, 2, 5, 6, 21, 22, 85, 86, 213, 214, 341, 342} {
 		for _, k := range []string{"I2", "U4", "F8", "A", "J", "W", "B", "O"} {
